@@ -30,6 +30,9 @@ FINDINGS = [
     ('C17', 'coltype-state.json', 'C17|state|class-setting|plasTeX.Base.LaTeX.Arrays:ColumnType.columnTypes',
      {'property': 'C17', 'seed': 6, 'swarm': {'scrub': False, 'base': 'minimal', 'exec_ref': False, 'hashseed': 1},
       'ops': [job(['prog_coltype_right'])]}),
+    ('C04', 'decl-in-own-env.json', 'C04|tex|decl-in-own-env',
+     {'property': 'C04', 'seed': 7, 'swarm': {'transports': ['tex'], 'declenv': True},
+      'ops': [{'op': 'DECLENV', 'name': 'small', 'same': True}]}),
     ('C04', 'global-prefix-def.json', 'C04|tex|global-prefix|def',
      {'property': 'C04', 'seed': 4, 'swarm': {'transports': ['tex'], 'global_prefix': True},
       'ops': [{'op': 'OPEN', 'kind': 'brace'}, {'op': 'DEF_GLOBAL', 'name': 'na', 'id': 7}, {'op': 'CLOSE'}, {'op': 'PROBE', 'what': 'na'}]}),
